@@ -74,7 +74,7 @@ def cfg_class(cfg):
         kind = 'aligned'
     else:
         kind = 'permuted'
-    return 'nd=%d|%s' % (nd, kind)
+    return 'nd=%d|%s%s' % (nd, kind, '|relinked' if cfg.get('relink') else '')
 
 
 class World(object):
@@ -133,6 +133,20 @@ def build_world(cfg):
     w.states['ineq'] = S.id['s'] > thr
     w.masks['ineq'] = w.arrays[('S', 's')] > thr
     w.ties = 0
+    if cfg.get('relink'):
+        # the links were REPLACED after the collection had been used (what the link editor does through
+        # set_links): the same pixel attributes stay reachable, through different maps
+        S.compute_fixed_resolution_buffer([(0, n - 1, n) for n in rshape], target_data=w.R, target_cid=S.id['s'])
+        ab_new = AB_SETS[cfg['relink']]
+        w.maps['S'] = [(ra, ab_new[ia][0], ab_new[ia][1]) for ia, ra in enumerate(cfg['perm'])]
+        links = []
+        for name in ('S', 'S2'):
+            D = w.sources[name]
+            for ia, (ra, a, b) in enumerate(w.maps[name]):
+                f = (lambda a, b: (lambda x: a * x + b))(a, b)
+                g = (lambda a, b: (lambda y: (y - b) / a))(a, b)
+                links.append(LinkTwoWay(w.R.pixel_component_ids[ra], D.pixel_component_ids[ia], f, g))
+        w.dc.set_links(links)
     return w
 
 
@@ -580,6 +594,11 @@ def all_cases(tier):
     for cfg in configs(tier):
         for first in range(8):
             cases.append(['req', cfg, first])
+    # the same requests after the links have been replaced (set_links) by links with another scale/offset
+    for cfg in configs(tier):
+        if cfg['ab'] == 'mixed' and (tier == 'thorough' or len(cfg['rshape']) == 2 or cfg['perm'] == list(range(3))):
+            for first in range(8):
+                cases.append(['req', dict(cfg, relink='shift'), first])
     for cfg in cache_configs(tier):
         for first in range(len(cache_alphabet(cfg))):
             cases.append(['seq', cfg, first, seq_len(tier)])
